@@ -212,6 +212,15 @@ def c05(run):
         if s["gsc_before"]:
             out.append(V("C05/ran-past-true-boundary", f"metaepoch {s['n']} was started although the global stop condition held at the preceding boundary"))
             break
+    # the condition is consulted after every generation of every (non-local) deme
+    for s in steps:
+        for r in s["runs"]:
+            d = run.deme_objs.get(r["id"])
+            if d is None or type(d).__name__ == "LocalDeme":
+                continue
+            if len(r["gsc"]) != len(r.get("gens", [])):
+                out.append(V("C05/generation-without-consult", f"metaepoch {s['n']}: deme {r['id']} ({type(d).__name__}) recorded {len(r.get('gens', []))} generations but consulted the global stop condition {len(r['gsc'])} times"))
+                break
     g = spec["gsc"]
     if g["kind"] == "MetaepochLimit" and mc != min(g["limit"], spec["max_steps"]):
         out.append(V("C05/metaepoch-limit", f"MetaepochLimit({g['limit']}) ended with metaepoch_count={mc}"))
